@@ -242,7 +242,13 @@ func genC01(ctx *Ctx) {
 // keep grabbing whatever id becomes free, so that the proxy's own re-PREPARE sometimes cannot
 // be sent.  Whatever happens, each EXECUTE must get exactly one reply.
 func c01UnpreparedSaturated(ctx *Ctx, tag *int) {
-	e := newEchoEnv(1, nil)
+	t, _ := unpreparedSaturated(ctx, tag, 1)
+	emitTally(ctx, t, "unprepared-on-saturated-connection")
+}
+
+// unpreparedSaturated returns the tally and how many EXECUTEs were answered with UNPREPARED.
+func unpreparedSaturated(ctx *Ctx, tag *int, hosts int) (c01Tally, int) {
+	e := newEchoEnv(hosts, nil)
 	defer e.close()
 	*tag++
 	prep, err := px.Dial(e.env.Addr)
@@ -297,8 +303,11 @@ func c01UnpreparedSaturated(ctx *Ctx, tag *int) {
 	}
 	n := ctx.Scale(300, 3000)
 	var t c01Tally
+	unprepared := 0
 	for i := 0; i < n; i++ {
-		e.be.Forget(1)
+		for h := 1; h <= hosts; h++ {
+			e.be.Forget(h)
+		}
 		st := int16(1 + i%1000)
 		_ = prep.Send(primitive.ProtocolVersion4, st, &message.Execute{QueryId: id, Options: &message.QueryOptions{
 			PositionalValues: []*primitive.Value{primitive.NewValue([]byte("tok:exec"))}}})
@@ -314,10 +323,15 @@ func c01UnpreparedSaturated(ctx *Ctx, tag *int) {
 			t.wrongStream++
 		default:
 			t.one++
+			if f.Opcode == byte(primitive.OpCodeError) {
+				if code, _, ok := errCodeAndMessage(f.Body); ok && code == 0x2500 {
+					unprepared++
+				}
+			}
 		}
 	}
 	close(stop)
 	hw.Wait()
 	close(park)
-	emitTally(ctx, t, "unprepared-on-saturated-connection")
+	return t, unprepared
 }
